@@ -9,6 +9,7 @@ import (
 	"crypto/rand"
 	"fmt"
 	"net"
+	"sync"
 	"time"
 
 	"hop.computer/hop/authkeys"
@@ -25,6 +26,8 @@ type PKI struct {
 	Root    *certs.Certificate
 	IntKey  *keys.SigningKeyPair
 	Int     *certs.Certificate
+	store   *certs.Store
+	storeMu sync.Mutex
 }
 
 func must[T any](v T, err error) T {
@@ -49,10 +52,17 @@ func NewPKI() *PKI {
 }
 
 // Store returns a trust store holding the root.
+// Every call returns a copy of one Store value, as the verifiers of one
+// deployment share one trust store (and whatever it keeps between
+// verifications) across all their handshakes.
 func (p *PKI) Store() certs.Store {
-	var s certs.Store
-	s.AddCertificate(p.Root)
-	return s
+	p.storeMu.Lock()
+	defer p.storeMu.Unlock()
+	if p.store == nil {
+		p.store = &certs.Store{}
+		p.store.AddCertificate(p.Root)
+	}
+	return *p.store
 }
 
 // Identity is a static DH key pair with a certificate for it.
